@@ -357,7 +357,7 @@ class Ptychography(PtychographyOpt, PtychographyVisualizations, PtychographyBase
     def fourier_projection(self, measured_amplitudes, overlap_array):
         """Replaces the Fourier amplitude of overlap with the measured data."""
         # corner centering measured amplitudes
-        measured_amplitudes = torch.fft.fftshift(measured_amplitudes, dim=(-2, -1))
+        measured_amplitudes = torch.fft.ifftshift(measured_amplitudes, dim=(-2, -1))
         fourier_overlap = torch.fft.fft2(overlap_array, norm="ortho")
         if self.num_probes == 1:  # faster
             fourier_modified_overlap = measured_amplitudes * torch.exp(
